@@ -139,7 +139,11 @@ def get_next_imf(X, env_step_size=1, max_iters=1000, energy_thresh=None,
 
         # If upper or lower are None we should stop sifting altogether
         if upper is None or lower is None:
-            continue_flag = False
+            # Only the input itself having no extrema marks the final residual,
+            # if extrema vanish during sifting the means removed so far are
+            # still in the signal and the overall sift has to carry on
+            if niters == 1:
+                continue_flag = False
             continue_imf = False
             logger.debug('Finishing sift: IMF has no extrema')
             continue
